@@ -66,6 +66,7 @@ def generate(c: Contract) -> Generated:
         return g
     ex = Exec(c, fs.fdef, fs.path, ctypes=fs.ctypes if c.cython else None)
     ex.aliases = getattr(fs, "aliases", {})
+    ex.module_consts = getattr(fs, "module_consts", {})
     g.ex = ex
     try:
         st = initial_state(ex, c, fs)
